@@ -254,6 +254,28 @@ def root_batch(acc, batch):
                           msg=f"A(working_dir={wd_a!r}) produces {outs!r}, B(working_dir={wd_b!r}) consumes {ins!r} ({want_out} vs {want_in}): expected {exp}, got {got}")
 
 
+def tilde_batch(acc, batch):
+    """`~` has no special meaning in a declared path: `~/x` in a target is the file x in a directory called `~` under its working directory."""
+    home = os.path.expanduser("~")
+    for sp_out, sp_in, order in batch:
+        wd = "/gwfmc/wd"
+        outs = {"tilde": "~/x", "dot-tilde": "./~/x", "abs": wd + "/~/x", "user": "~root/x"}[sp_out]
+        ins = {"tilde": "~/x", "abs": wd + "/~/x", "home": home + "/x", "user": "~root/x", "abs-user": wd + "/~root/x"}[sp_in]
+        defs = {"A": lambda: gwfh.mk_target("A", [], [outs], working_dir=wd), "B": lambda: gwfh.mk_target("B", [ins], ["/gwfmc/other"], working_dir=wd)}
+        real = {n: defs[n]() for n in order}
+        connected = RP.resolve(wd, ins, cwd="/") == RP.resolve(wd, outs, cwd="/")
+        case = dict(kind="tilde", out=sp_out, inp=sp_in, order=list(order))
+        try:
+            obs = observe(real, "/")
+            got = dict(dep=obs["dependencies"]["B"], endpoints=obs["endpoints"])
+        except Exception as e:
+            got = dict(exception=f"{type(e).__name__}: {str(e)[:80]}")
+        exp = dict(dep=["A"] if connected else [], endpoints=["B"] if connected else ["A", "B"])
+        acc.case(key=json.dumps(case), outcome=f"tilde connected={connected}", sample=case, nontrivial=connected)
+        if got != exp:
+            acc.violation(sig=dict(kind="tilde", connected=connected), case=case, expected=exp, observed=got, msg=f"A produces {outs!r}, B consumes {ins!r} (same working directory {wd}): expected {exp}, got {got}")
+
+
 def root_items():
     its = []
     for wd_a in ("/", "/a/..", "/a/../", "/./"):
@@ -351,6 +373,7 @@ def run(ctx):
     ctx.pmap(me, "pair_batch", pair_items(), chunk=4)
     ctx.pmap(me, "pair_batch", pair_items(), chunk=8, symlinked=True)
     ctx.pmap(me, "root_batch", root_items(), chunk=32)
+    ctx.pmap(me, "tilde_batch", [(o, i, od) for o in ("tilde", "dot-tilde", "abs", "user") for i in ("tilde", "abs", "home", "user", "abs-user") for od in (("A", "B"), ("B", "A"))], chunk=8)
     ctx.pmap(me, "all_batch", all_items(2) + all_items(3), offsets=list(range(0, NSPELL, 2)) if quick else list(range(NSPELL)))
     if not quick:
         # four targets over the three files, one spelling rotation, every definition order
@@ -369,6 +392,9 @@ def replay(case):
     if case["kind"] == "cli":
         cli_batch(acc, [(case["f"], case["ko"], case["ki"])])
         return [v for v in acc.violations if v["case"] == case or True]
+    if case["kind"] == "tilde":
+        tilde_batch(acc, [(case["out"], case["inp"], tuple(case["order"]))])
+        return acc.violations
     if case["kind"] == "root":
         root_batch(acc, [(case["wd_a"], case["out"], case["wd_b"], case["inp"], tuple(case["order"]))])
         return acc.violations
